@@ -727,6 +727,12 @@ def main(tier, seed):
     ovals += [(gen_value(rng, allow_surrogate=True),) for _ in range(n_oracle)]
     ovals += [(gen_const(rng), gen_value(rng)) for _ in range(n_oracle // 10)]
     ovals += [(v,) for v in big_values()[:2]]
+    # long containers: at, just below and just above the batch sizes picklers use (1000), top-level, nested and
+    # as a dict value; a dict of 1000 entries
+    for n_items in (999, 1000, 1001, 2000):
+        ovals.append((list(range(n_items)),))
+    ovals += [([["a"] * 1000, 1],), ({"k": [0] * 1000},), ({i: str(i) for i in range(1000)},),
+              ({str(i): [i] for i in range(1001)},)]
     refused = 0
     for i, args in enumerate(ovals):
         how = ("insert", "append", "insert_last")[i % 3]
